@@ -21,6 +21,12 @@ Spaces (equations are enumerated over the literal alphabet, no quotient by relab
     S3   alphabet 'abc', operand rank 0..3 : seeded ~10 % sample in quick, complete in thorough
     TD   tensordot, operand rank 0..3      : enumerated completely in both tiers
     RND  4-5 symbols, operand rank up to 4 : seeded random cases in both tiers
+
+Found on the snapshot (both repaired in /repo, so classify() knows no finding):
+    * einsum('a,aca->c', x, y): transpose-only shortcut of _parse_eq_to_batch_matmul taken for a term with
+      a repeated index -> ValueError in the transpose (49 296 of the 446 365 keys of S3; exactly the keys
+      for which _shortcut_mechanism() is true)                                         [fix 0e93552]
+    * tensordot(a, b, <python int>): `axes[0]` raises TypeError, only IndexError was caught  [fix a2466a2]
 """
 
 import importlib
@@ -72,7 +78,6 @@ REQUIRED_MONITORS = [
 SHARD_TIMEOUT = {"quick": 400, "thorough": 3600}
 BLOCK = 6  # keys whose first and second executions are interleaved
 
-KNOWN_KEY = "bmm-transpose-shortcut-repeated-index"
 
 
 def EXHAUSTIVE(tier):
@@ -405,9 +410,9 @@ def _plan_of(case, shapes):
 
 
 class Sink:
-    """The known mechanism fires on hundreds of keys; keep a few witnesses per mechanism /
-    symptom signature so that a *different* mechanism can never be crowded out of the
-    report's bounded violation list.  Every failing execution is counted."""
+    """One defect fires on hundreds of keys; keep a few witnesses per symptom signature so
+    that a *different* mechanism can never be crowded out of the report's bounded violation
+    list.  Every failing (key, executor) is counted."""
 
     PER_SIG = 3
 
@@ -420,9 +425,12 @@ class Sink:
         witness = dict(case)
         witness["plan"] = plan
         v = {"kind": kind, "message": msg, "witness": witness}
-        key = classify(v)
-        sig = (key, case["ex"], kind, re.sub(r"[-+]?\d[\d.e+-]*", "#", msg)[:60])
-        self.rep.count("failing_executions_by_mechanism", f"{key}|{case['ex']}|{kind}")
+        key = diagnose(v)
+        skel = re.sub(r"[-+]?\d[\d.e+-]*", "#", msg)[:60] if kind == "raises" else ""
+        sig = (key, case["ex"], kind, skel)
+        self.rep.count("failing_keys_by_symptom", f"{case['ex']}|{kind}|{key or skel}")
+        if key:
+            msg = f"{msg} [diagnosis: {key}]"
         self.n[sig] = self.n.get(sig, 0) + 1
         if self.n[sig] <= self.PER_SIG:
             label = case.get("eq") or f"axes={case.get('axes')}({case.get('axes_form')})"
@@ -613,7 +621,9 @@ def rand_desc(rng):
 
 
 def run_random(rep, sink, tier, seed, shard):
-    dl = Deadline(budget(tier, 25, 600))
+    # sized by case count; the deadline is only a guard far above the unloaded time (quick ~3 s,
+    # thorough ~60 s per shard) so that coverage does not collapse on a loaded machine
+    dl = Deadline(budget(tier, 200, 2400))
     n = budget(tier, 2400, 60000)
     block = []
     done = 0
@@ -656,10 +666,12 @@ def probe_negative_axes(rep):
 
 
 def _shortcut_mechanism(eq, shapes):
-    """True iff, for this two-operand key, the planner's 'only need to transpose' test
-    (set(term) == set(desired)) holds for an operand that has a repeated index, i.e. whose
-    rank exceeds the length of its desired order, on the batched-matmul path (at least one
-    contracted index of size > 1).  Derived from the witness alone."""
+    """Diagnosis only (repaired defect F6, commit 0e93552): True iff, for this two-operand key,
+    the planner's old 'only need to transpose' test (set(term) == set(desired)) holds for an
+    operand that has a repeated index, on the batched-matmul path (at least one contracted
+    index of size > 1).  Derived from the witness alone.  On the unrepaired tree the failing
+    two-operand keys of the complete 'abc' rank<=3 space were exactly the keys with this
+    predicate (49 296 of 446 365)."""
     try:
         lhs, out = eq.split("->")
         ta, tb = lhs.split(",")
@@ -685,30 +697,29 @@ def _shortcut_mechanism(eq, shapes):
     return False
 
 
-def classify(v):
+def diagnose(v):
+    """A short mechanism label for the message / in-shard grouping; never a known-finding key."""
     w = v.get("witness", {})
-    if w.get("ex") != "einsum2" or v.get("kind") != "raises":
-        return None
-    # symptom: the transpose-only preparation in _do_contraction_via_bmm is given fewer axes
-    # than the operand has
     msg = v.get("message", "")
-    if "ValueError" not in msg or '[at _do_contraction_via_bmm:' not in msg or 'do("transpose"' not in msg:
-        return None
-    if not _shortcut_mechanism(w.get("eq", ""), w.get("shapes", [[], []])):
-        return None
-    # the plan observed at the failure: a transpose-only preparation (a tuple, not an equation)
-    # shorter than the operand's rank
-    plan = w.get("plan")
-    if isinstance(plan, (list, tuple)) and len(plan) >= 2:
-        short = False
-        for prep, shp in zip(plan[:2], w["shapes"]):
-            if isinstance(prep, (list, tuple)) and len(prep) < len(shp):
-                short = True
-        if not short:
-            return None
-    else:
-        return None
-    return KNOWN_KEY
+    if (
+        w.get("ex") == "einsum2"
+        and v.get("kind") == "raises"
+        and "ValueError" in msg
+        and "[at _do_contraction_via_bmm:" in msg
+        and 'do("transpose"' in msg
+        and _shortcut_mechanism(w.get("eq", ""), w.get("shapes", [[], []]))
+    ):
+        plan = w.get("plan")
+        if isinstance(plan, (list, tuple)) and len(plan) >= 2:
+            for prep, shp in zip(plan[:2], w["shapes"]):
+                if isinstance(prep, (list, tuple)) and len(prep) < len(shp):
+                    return "transpose-only preparation shorter than the operand rank (repeated index)"
+    return None
+
+
+def classify(v):
+    # no known finding remains for C11 (both defects found on the snapshot are repaired in /repo)
+    return None
 
 
 def replay(rep, v):
